@@ -394,3 +394,39 @@ def r11f(fb, rep):
         elif accepts:
             rep.ok(R, "Expr::%s tail: closable" % vn)
     rep.floor(R, "tail forms with an arm of their own", n, 5)
+
+
+def r11g(fb, rep):
+    """R11g — a run of constructor alternatives is complete when it names every *constructor* of the type.
+    `PatternTranslator::compile_constructor` groups the alternatives by constructor and omits the fall-through to the
+    following (catch-all) alternatives when the run is complete.  The test must compare the number of constructors of the type
+    (`row_iter().count()`) with the number of distinct constructors named (the size of the grouping map), not with the number
+    of alternatives: `| A 1 -> .. | A x -> .. | _ -> d` on a two-constructor type has two alternatives and one constructor; judged
+    complete, `B 7` falls into the first alternative's body (wrong value or stack corruption)."""
+    R = "R11g"
+    rep.rule(R, "constructor-match completeness counts distinct constructors, not alternatives")
+    b = next((x for i, x in fb.bodies.items() if i.endswith("PatternTranslator::<'a, 'e>::compile_constructor") and x.kind == "fn"), None)
+    if b is None:
+        b = next((x for i, x in fb.bodies.items() if "PatternTranslator" in i and i.endswith("::compile_constructor") and x.kind == "fn"), None)
+    if b is None:
+        rep.anchor_lost(R, "PatternTranslator::compile_constructor")
+        return
+    n = 0
+    for i, j, pl, rv, ln in b.assigns():
+        if rv[0] != "bin" or rv[1] not in ("Eq", "Ne"):
+            continue
+        l, r_ = flow.sources(b, rv[2], depth=12), flow.sources(b, rv[3], depth=12)
+        is_count = lambda s_: flow.has_call(s_, lambda x: x.endswith("Iterator::count") or x.endswith("::count"))
+        if not (is_count(l) or is_count(r_)):
+            continue
+        other = r_ if is_count(l) else l
+        n += 1
+        from_map = flow.has_call(other, lambda x: "HashMap" in x and x.rsplit("::", 1)[-1] == "len") or flow.has_call(other, lambda x: x.endswith("Vec::<T, A>::len") or x.endswith("Vec::<T>::len"))
+        from_param = any(s_[0] == "arg" for s_ in other)
+        if from_map and not from_param:
+            rep.ok(R, "compile_constructor: completeness = (number of grouped constructors == number of constructors of the type)")
+        else:
+            rep.violation(R, "completeness-counts-alternatives", "compile_constructor compares the constructor count of the type with %s instead of the number of distinct constructors named "
+                          "by the alternatives: a run that repeats a constructor can be judged complete and the fall-through to the catch-all alternative is omitted"
+                          % ("a quantity derived from its `equations` parameter (the number of alternatives)" if from_param else "another quantity"), "%s:%s" % (b.file, ln))
+    rep.floor(R, "completeness comparisons in compile_constructor", n, 1)
